@@ -353,7 +353,7 @@ Proof. revert k. induction l as [|x r IH]; intro k; cbn [wsum qsum]; [lra | rewr
 Lemma wsum_padd f k a b : wsum f k (padd a b) == wsum f k a + wsum f k b.
 Proof.
   revert k b. induction a as [|x a IH]; intros k b; [cbn [padd wsum]; lra|].
-  destruct b as [|y b]; cbn [padd wsum]; [lra | rewrite IH; ring].
+  destruct b as [|y b]; cbn [padd wsum]; [lra | rewrite IH, Qred_correct; ring].
 Qed.
 Lemma wsum_map_scale f k c l : wsum f k (map (Qmult c) l) == c * wsum f k l.
 Proof. revert k. induction l as [|x r IH]; intro k; cbn [wsum map]; [lra | rewrite IH; ring]. Qed.
@@ -376,7 +376,7 @@ Proof.
   unfold M2, M1, M0. cbn [wsum]. rewrite wsum_shift.
   rewrite (wsum_ext (fun i => qnat (S i) * qnat (S i)) (fun i => qnat i * qnat i + (2 * qnat i + 1)))
     by (intro; rewrite qnat_S; ring).
-  rewrite wsum_add, wsum_add, wsum_scale, wsum_const. rewrite qnat_0. ring.
+  rewrite wsum_add, wsum_add, (wsum_scale 2 qnat), wsum_const. rewrite qnat_0. ring.
 Qed.
 Lemma M0_cons x l : M0 (x :: l) == x + M0 l.
 Proof. reflexivity. Qed.
@@ -407,7 +407,7 @@ Lemma pmf_m2_M off l : pmf_m2 off l == off * off * M0 l + 2 * off * M1 l + M2 l.
 Proof.
   unfold pmf_m2, M1, M2.
   rewrite (wsum_ext _ (fun i => off * off + (2 * off * qnat i + qnat i * qnat i))) by (intro; ring).
-  rewrite wsum_add, wsum_add, wsum_scale, wsum_const. fold (M0 l). Show. ring.
+  rewrite wsum_add, wsum_add, (wsum_scale (2 * off) qnat), wsum_const. fold (M0 l). ring.
 Qed.
 (* the variance does not depend on where the support starts *)
 Lemma pmf_var_M off l : M0 l == 1 -> pmf_var off l == M2 l - M1 l * M1 l.
@@ -448,7 +448,7 @@ Proof.
   revert b n. induction a as [|x a IH]; intros b n.
   - cbn [padd]. destruct n; cbn [nth]; lra.
   - destruct b as [|y b]; cbn [padd]; [destruct n; cbn [nth]; lra|].
-    destruct n; cbn [nth]; [lra | apply IH].
+    destruct n; cbn [nth]; [rewrite Qred_correct; lra | apply IH].
 Qed.
 Lemma nth_map_scale c l n : nth n (map (Qmult c) l) 0 == c * nth n l 0.
 Proof. revert n. induction l as [|x r IH]; intro n; destruct n; cbn [map nth]; try lra. apply IH. Qed.
@@ -466,10 +466,8 @@ Proof.
   - cbn [conv]. rewrite nth_padd, nth_map_scale. cbn [qsum_range]. rewrite qsum_range_shift.
     destruct n as [|n].
     + cbn [nth qsum_range Nat.sub]. ring.
-    + cbn [nth]. rewrite IH. cbn [Nat.sub]. rewrite Nat.sub_0_r.
-      rewrite (qsum_range_ext (fun i => nth (S i) (x :: a) 0 * nth (S n - S i) b 0) (fun i => nth i a 0 * nth (n - i) b 0))
-        by (intros; reflexivity).
-      ring.
+    + cbn [nth]. rewrite IH. change (S n - 0)%nat with (S n).
+      apply Qplus_comp; [reflexivity|]. apply qsum_range_ext. intros i _. reflexivity.
 Qed.
 
 (* the base pmfs *)
@@ -577,7 +575,7 @@ Qed.
 Lemma cd_zero_padding xs ps : NoDup xs -> length xs = length ps ->
   let lo := nat_min_list xs in
   (forall i, (i < length xs)%nat -> nth (nth i xs 0%nat - lo) (cd_pad xs ps) 0 = nth i ps 0) /\
-  (forall x, ~ In x xs -> nth (x - lo) (cd_pad xs ps) 0 = 0) /\
+  (forall x, (lo <= x)%nat -> ~ In x xs -> nth (x - lo) (cd_pad xs ps) 0 = 0) /\
   qsum (cd_pad xs ps) == qsum ps /\
   pmf_mean (qnat lo) (cd_pad xs ps) == qsum (map (fun '(x, p) => qnat x * p) (combine xs ps)) /\
   pmf_m2 (qnat lo) (cd_pad xs ps) == qsum (map (fun '(x, p) => qnat x * qnat x * p) (combine xs ps)).
@@ -596,13 +594,9 @@ Proof.
     destruct (Nat.ltb_spec (nth i xs 0%nat - lo) (hi - lo + 1)) as [_|Hy]; [|lia].
     replace (lo + (nth i xs 0%nat - lo))%nat with (nth i xs 0%nat) by lia.
     apply cd_lookup_nth; auto.
-  - intros x Hx. rewrite Hnth0.
+  - intros x Hle Hx. rewrite Hnth0.
     destruct (Nat.ltb (x - lo) (hi - lo + 1)); [|reflexivity].
-    destruct (Nat.le_gt_cases lo x) as [Hle|Hgt].
-    + replace (lo + (x - lo))%nat with x by lia. apply cd_lookup_notin; exact Hx.
-    + replace (lo + (x - lo))%nat with lo by lia. apply cd_lookup_notin. intro Hin. apply Hx.
-      (* lo is below x, so lo in xs would not contradict; use that x < lo means x not in range: lookup at lo *)
-      exfalso. pose proof (cd_range xs lo Hin). lia.
+    replace (lo + (x - lo))%nat with x by lia. apply cd_lookup_notin; exact Hx.
   - rewrite <- (map_id ps) at 2.
     pose proof (cd_weighted_sum (fun _ => 1) lo (hi - lo + 1) xs ps Hnd Hlen Hr) as H.
     rewrite (qsum_map_ext (fun x => 1 * cd_lookup xs ps x) (cd_lookup xs ps)) in H by (intros; ring).
@@ -618,3 +612,14 @@ Proof.
     rewrite (wsum_map_seq (fun x => qnat x * qnat x) (cd_lookup xs ps) lo (hi - lo + 1) 0).
     apply (cd_weighted_sum (fun x => qnat x * qnat x) lo (hi - lo + 1) xs ps Hnd Hlen Hr).
 Qed.
+
+(* ============================================================================================ *)
+(* 7. wrappers used by Props/C16.v                                                                *)
+Lemma generate_deterministic a rnd p v :
+  generate_demand (TD a) rnd p v = option_map (maybe_round rnd) (replay 0 a p).
+Proof. destruct v; reflexivity. Qed.
+
+Lemma cd_interval_len ps u i : Forall (fun x => 0 <= x) ps -> qsum ps == 1 -> 0 <= u -> (i < length ps)%nat ->
+  (cd_index ps u = i <-> cum_before ps i <= u /\ u < cum_before ps (S i)) /\
+  cum_before ps (S i) - cum_before ps i == nth i ps 0.
+Proof. intros H1 H2 H3 H4. exact (conj (cd_interval ps u i H1 H2 H3 H4) (cum_before_step ps i H4)). Qed.
